@@ -87,7 +87,7 @@ func raceParent(env *Env, prop string, addViolation func(*Plan, *Violation)) {
 		go func() { done <- cmd.Run() }()
 		select {
 		case <-done:
-		case <-time.After(120 * time.Second):
+		case <-time.After(600 * time.Second):
 			cmd.Process.Kill()
 			<-done
 			env.St.inc("race_children_timed_out", 1)
@@ -156,7 +156,7 @@ func freeRun(r *c18Runner) string {
 			continue
 		}
 		var resp *Resp
-		deadline := time.Now().Add(10 * time.Second)
+		deadline := time.Now().Add(90 * time.Second)
 		for {
 			last := d.last
 			resp = d.apply(&op)
@@ -299,7 +299,7 @@ func c10FreeRun(p *Plan) string {
 		arg := firstArg
 		haveFirst = false
 		var r Resp
-		deadline := time.Now().Add(10 * time.Second)
+		deadline := time.Now().Add(90 * time.Second)
 		for {
 			r = d.h.Next(arg)
 			if r.Kind != rWaiting || time.Now().After(deadline) {
@@ -323,6 +323,10 @@ func c10FreeRun(p *Plan) string {
 		d.h.Next(firstArg)
 	}
 	minvs, _ := decodeExtra[[]MInv](p, "model_invocations")
+	// a handler that runs on its own goroutine may not have started yet: give it time before counting
+	for w := time.Now().Add(30 * time.Second); d.h.nInvs() < len(minvs) && time.Now().Before(w); {
+		time.Sleep(200 * time.Microsecond)
+	}
 	time.Sleep(2 * time.Millisecond)
 	if n := d.h.nInvs(); n != len(minvs) {
 		return fmt.Sprintf("%d handler invocations for %d executed command statements", n, len(minvs))
